@@ -21,6 +21,8 @@ pub uninterp spec fn annotation_xml_ip(h: Handle) -> bool;
 pub struct ElemName { pub n: ExpandedName }
 impl ElemName {
     pub fn expanded(&self) -> (r: ExpandedName) ensures r == self.n { self.n }
+    pub fn ns(&self) -> (r: &Namespace) ensures *r == self.n.ns { &self.n.ns }
+    pub fn local_name(&self) -> (r: &LocalName) ensures *r == self.n.local { &self.n.local }
 }
 pub struct Sink { pub x: u8 }
 impl Sink {
